@@ -61,7 +61,7 @@ for s in sorted(glob.glob(os.path.join(root, 'seeded/*/meta.json'))):
     need = (m.get('title') or m.get('needs_to_manifest', '').split('\n')[0]).lstrip('# ').strip()[:160]
     by = '; '.join([x for x in (m.get('check_signatures') or []) if x][:3]) or ''
     bo = '; '.join(b.replace('BROKEN OBLIGATION(S): ', '')[:90] for b in (m.get('check_broken_obligations') or [])[:1])
-    verdict = ('caught: ' + (by or bo)) if m.get('detected') else 'MISSED'
+    verdict = ('caught: ' + (by or bo)) if m.get('detected') else ('pending' if m.get('detected') is None else 'MISSED')
     if m.get('detected') and by and bo:
         verdict += ' (+ obligation ' + bo + ')'
     if m.get('caught_by_other'):
